@@ -1,6 +1,6 @@
 """C13 component placement rules"""
 from .. import oracles as O
-from ..propkit import Kit
+from ..propkit import Kit, cutoff_ops
 
 
 def _oracle(S, b, trace):
@@ -28,5 +28,5 @@ def _tweak(rng, c):
                     c["wps"][q]["inputs"] = [rng.choice([x for x in range(n) if x not in (pi, q)] or [q - 1 if q else 1])]
 
 
-K = Kit("C13", _oracle, facilities=True, tweak=_tweak)
+K = Kit("C13", _oracle, facilities=True, tweak=_tweak, make_ops=cutoff_ops)
 eval_case, run, replay = K.eval_case, K.run, K.replay
